@@ -252,7 +252,7 @@ func (c *c06) Run(ctx *RunCtx) *RunResult {
 	}
 	// ---- history ----
 	nops := t.Range(1, 6)
-	simrt.Reset(1, nil, uint64(t.Draw(1<<20)))
+	simrt.Reset(1, soloPlan(t, treeSpawnsCached(c.env), 20000), uint64(t.Draw(1<<20)))
 	simrt.Solo()
 	rand.Seed(int64(t.Draw(1 << 20)))
 	evh := uint64(3)
